@@ -17,7 +17,8 @@ RULE = ("Circuits from the full program generator (all component kinds, empty an
         "with arbitrary objects / wrong length, unknown display type). Oracle: returns a drawsvg.Drawing whose "
         "as_svg() parses as XML, or a (Figure, Axes) pair, without raising; observable circuit snapshot unchanged; "
         "wrong label length or unknown type raise DisplayError and nothing else. Non-trivial = a circuit with an "
-        "ancilla mode, a heralded group or a labelled parameter; distinct = case JSON.")
+        "ancilla mode, a heralded group or a labelled parameter; distinct = case JSON."
+        " Group names and unitary labels of length 0, 1, 2 and long; mode labels as list or tuple, compared after drawing and used for a second drawing.")
 ASSUMPTIONS = ["the right label count is the number of user-visible modes (all modes except ancillas of heralded "
                "sub-circuits), as both back-ends document", "figures are closed after every case; nothing is rasterised"]
 
